@@ -4,7 +4,8 @@ import gen
 from props import util
 
 THEOREMS = ['C07_assembled_wf', 'C07_vectors_are_the_assets', 'C07_row_points_to_own_variable', 'C07_row_points_shifted',
-            'C07_assembled_mapping_wf', 'C07_nodal_rows_exact', 'C07_nodal_rows_unique']
+            'C07_assembled_mapping_wf', 'C07_nodal_rows_exact', 'C07_nodal_rows_unique',
+            'C07_transport_builder_wf', 'C07_storage_builder_wf', 'C07_contract_builder_wf']
 CFG = {'p_gap': 0.2, 'p_cap_dict': 0.35, 'p_coarse': 0.2, 'p_periodic': 0.2, 'T': (3, 8), 'n_assets': (1, 5), 'nodes': (1, 3), 'p_window': 0.5,
        'p_no_simult': 0.2, 'p_max_store': 0.15, 'p_full_exec': 0.2,
        'window_kinds': ['inside', 'left', 'right', 'straddle_l', 'straddle_r', 'before', 'after', 'offgrid'],
